@@ -29,8 +29,8 @@ def run(tier, seed):
                      'model_log': tie.model_log, 'rust_log': tie.rust_log})
         return R.finish(trusted_base=C.TRUSTED_COMMON)
 
-    cases = T.adversarial_cases(rng, 3000 if quick else 40000)
-    cases += T.program_cases(rng, 6000 if quick else 100000, 6000 if quick else 100000, 8000 if quick else 200000,
+    cases = T.adversarial_cases(rng, 3000 if quick else 150000)
+    cases += T.program_cases(rng, 6000 if quick else 400000, 6000 if quick else 400000, 8000 if quick else 800000,
                              2 if quick else 3)
     lines = [c[0] for c in cases]
     labels = [c[1] for c in cases]
